@@ -11,6 +11,7 @@ class Sub(param.Parameterized):
     x = param.Number(default=0)
     label = param.String(default="")
     anyv = param.Parameter(default=None)
+    opt = param.Number(default=4, allow_None=True)        # None is a value different from the default
 
 
 class Plain(param.Parameterized):
@@ -25,12 +26,14 @@ class Plain(param.Parameterized):
     sub = param.ClassSelector(class_=Sub, default=None)
     subs = param.List(default=[], item_type=Sub)
     prec = param.Number(default=0, precedence=2)
+    optn = param.Number(default=3, allow_None=True)
+    opts = param.String(default="x", allow_None=True)
 
 
 class Pos(param.Parameterized):
     """positional parameter + keyword whose default differs from the Parameter default + **params"""
-    num = param.Number(default=1.5)
-    s = param.String(default="pdefault")
+    num = param.Number(default=1.5, allow_None=True)
+    s = param.String(default="pdefault", allow_None=True)
     i = param.Integer(default=2)
     anyv = param.Parameter(default=None)
 
